@@ -31,11 +31,11 @@ func runC04(c *Ctx) {
 		stratum = c.Run / 2
 	}
 	var idi IDInfo
-	var spec *tls.ClientHelloSpec
+	var newSpec func() *tls.ClientHelloSpec
 	kind := "id"
 	if stratum < 0 && ch.Bool(25, "custom") {
 		kind = "custom"
-		spec, _ = GenSpec(ch, true)
+		newSpec, _ = GenSpecFactory(ch, true)
 		idi = IDInfo{"Custom", tls.HelloCustom}
 	} else {
 		idi = PickID(ch, stratum, false)
@@ -53,7 +53,7 @@ func runC04(c *Ctx) {
 		scfg.CurvePreferences = []tls.CurveID{tls.CurveP384}
 		stdcfg.CurvePreferences = []stdtls.CurveID{stdtls.CurveP384}
 	}
-	useID, useSpec := idi.ID, spec
+	useID, useSpec := idi.ID, freshSpec(newSpec)
 	if fp {
 		tmp := tls.UClient(nil, mk(), idi.ID)
 		if err := tmp.BuildHandshakeState(); err == nil {
@@ -98,7 +98,7 @@ func runC04(c *Ctx) {
 				f := &tls.Fingerprinter{}
 				s2, _ = f.FingerprintClientHello(AsRecord(obs.CHRaw[0]))
 			} else {
-				s2 = useSpec
+				s2 = freshSpec(newSpec)
 			}
 			if s2 == nil || u.ApplyPreset(s2) != nil {
 				break
